@@ -336,7 +336,7 @@ def w_in_recording(props=None, case=None):
             res = [t for t in hooks(s, 'alias_params_resolver') if t['outcome'][0] == 'ret']
             al = Val.s(FA(fr['alias'], res[0]['outcome'][1])) if res else fr['alias']
             key = Val.s(KF(al, fr['capture_args'], fr['static_function'], old['seq'][Val.addr(fr['args'])], old['ddom'][ka], old['dmap'][ka]))
-            obl.append(Obl('C01/%s/record/key_is_K_of_alias_and_arguments' % U, 'C01', s, ev[2] == key, oc))
+            obl.append(Obl('C01/%s/record/key_is_K_of_alias_and_arguments' % U, ('C01', 'C06'), s, ev[2] == key, oc))
     return finish(ex, paths, obl, info, fr=fr, extra_mv=pmv)
 
 
@@ -375,17 +375,17 @@ def w_out(mode='playback', props=None, case=None):
                 obl.append(Obl('C03/%s/exactly_one_output_entry' % U, 'C03', s, z3.BoolVal(len(pbo) == 1), oc))
                 if len(pbo) == 1:
                     o = pbo[0][1]
-                    obl.append(Obl('C03/%s/entry_key_is_alias_and_ordinal' % U, 'C03', s, s.rd(o, 'key') == okey, oc))
+                    obl.append(Obl('C03/%s/entry_key_is_alias_and_ordinal' % U, ('C03', 'C01'), s, s.rd(o, 'key') == okey, oc))
                     v = s.rd(o, 'value')
                     if prep:
-                        obl.append(Obl('C03/%s/entry_value_is_handler_value' % U, 'C03', s, v == prep[0]['outcome'][1], oc))
-                        obl.append(Obl('C03/%s/handler_sees_call_arguments' % U, 'C03', s,
+                        obl.append(Obl('C03/%s/entry_value_is_handler_value' % U, ('C03', 'C20'), s, v == prep[0]['outcome'][1], oc))
+                        obl.append(Obl('C03/%s/handler_sees_call_arguments' % U, ('C03', 'C20'), s,
                                        z3.And(prep[0]['pos'][0] == okey, s.g['seq'][Val.addr(prep[0]['pos'][1])] == sent, prep[0]['pos'][2] == fr['kwargs']), oc))
                     else:
                         al = s.dget(v, S('args'))
                         cl = z3.And(Val.is_ref(v), s.dhas(v, S('args')), s.dhas(v, S('kwargs')), s.dget(v, S('kwargs')) == fr['kwargs'],
                                     Val.is_ref(al), s.g['seq'][Val.addr(al)] == sent)
-                        obl.append(Obl('C03/%s/entry_value_is_args_without_instance_and_kwargs' % U, 'C03', s, cl, oc))
+                        obl.append(Obl('C03/%s/entry_value_is_args_without_instance_and_kwargs' % U, ('C03', 'C01'), s, cl, oc))
                 # counter advanced by exactly one for this alias
                 cnt = s.rd(selfv, '_invoke_counter')
                 # == n unless user code ran further outputs of the same alias meanwhile (rely), never below
@@ -394,12 +394,12 @@ def w_out(mode='playback', props=None, case=None):
                                       z3.BoolVal(len(prep) > 0) if len(prep) > 0 else s.dget(cnt, fr['alias']) == I(n_)), oc))
             nd = [x for x in s.g['notes'] if x[0] == 'get_data']
             if nd:
-                obl.append(Obl('C02/%s/result_read_under_result_key' % U, 'C02', s, nd[0][2] == rkey, oc))
+                obl.append(Obl('C02/%s/result_read_under_result_key' % U, ('C02', 'C01', 'C08'), s, nd[0][2] == rkey, oc))
                 orig = nd[0][4]
                 # known finding C02-recorded-key-error (same root as in W_in): a recorded RecordingKeyError is taken for a missing result
                 rke = z3.And(s.dhas(orig, S('exception')), sub(TYP(Val.addr(CP(s.dget(orig, S('exception'))))), K('RecordingKeyError')))
                 if oc[0] == 'return':
-                    obl.append(Obl('C01/%s/replay/returns_copy_of_recorded_result' % U, 'C01', s,
+                    obl.append(Obl('C01/%s/replay/returns_copy_of_recorded_result' % U, ('C01', 'C11', 'C08'), s,
                                    z3.Implies(z3.Not(rke), z3.And(z3.Not(s.dhas(orig, S('exception'))), oc[1] == CP(s.dget(orig, S('value'))))), oc))
                     obl.append(Obl('C02/%s/present/recorded_key_error_not_treated_as_missing' % U, 'C02', s, z3.Not(rke), oc,
                                    finding='C02-recorded-key-error'))
@@ -419,13 +419,13 @@ def w_out(mode='playback', props=None, case=None):
             if oc[0] == 'return':
                 obl.append(Obl('C05/%s/output_and_result_captured_or_discarded' % U, 'C05', s, z3.Or(z3.BoolVal(len(writes) >= 2), discarded), oc))
             if writes:
-                obl.append(Obl('C03/%s/output_entry_key_is_alias_and_ordinal' % U, 'C03', s, writes[0][2] == okey, oc))
+                obl.append(Obl('C03/%s/output_entry_key_is_alias_and_ordinal' % U, ('C03', 'C01'), s, writes[0][2] == okey, oc))
                 if not prep:
                     v = writes[0][3]; al = s.dget(v, S('args'))
                     cl = z3.And(Val.is_ref(v), s.dhas(v, S('args')), s.dget(v, S('kwargs')) == fr['kwargs'], Val.is_ref(al), s.g['seq'][Val.addr(al)] == sent)
-                    obl.append(Obl('C03/%s/output_entry_value_is_args_without_instance_and_kwargs' % U, 'C03', s, cl, oc))
+                    obl.append(Obl('C03/%s/output_entry_value_is_args_without_instance_and_kwargs' % U, ('C03', 'C01'), s, cl, oc))
                 else:
-                    obl.append(Obl('C03/%s/output_entry_value_is_handler_value' % U, 'C03', s, writes[0][3] == prep[0]['outcome'][1], oc))
+                    obl.append(Obl('C03/%s/output_entry_value_is_handler_value' % U, ('C03', 'C20'), s, writes[0][3] == prep[0]['outcome'][1], oc))
             if len(writes) >= 2:
                 obl.append(Obl('C01/%s/record/result_key_is_alias_and_ordinal' % U, 'C01', s, writes[1][2] == rkey, oc))
                 if len(b) == 1:
@@ -560,6 +560,29 @@ def w_op_recording(props=None, case=None):
         obl.append(Obl('C05/%s/finalised_exactly_once' % U, 'C05', s, z3.Implies(z3.Not(excl), cnt == 1), oc))
         if ext_int:
             obl.append(Obl('C05/%s/finalised_exactly_once[extractor interrupt]' % U, 'C05', s, z3.Implies(excl, cnt == 1), oc, finding='C05-extractor-interrupt'))
+        # C03 / C01: the operation's own outcome is recorded as one output entry under the operation key: the returned value, or the ordinary
+        # exception (or its serialisable form); nothing for an interrupt-style or framework exception.  (Unless the recording was discarded.)
+        if len(b) == 1:
+            out_ = b[0]['outcome']; opk_ = Val.s(op_key())
+            ops = [ev for ev in s.events if ev[0] == 'setitem' and s.entails(ev[2] == opk_)]
+            still = s.g['created'] is not None and not any(ev[0] in ('abort',) for ev in s.events)
+            disc_ = z3.Or(*[ev[1] for ev in s.events if ev[0] == 'abort?']) if any(ev[0] == 'abort?' for ev in s.events) else z3.BoolVal(False)
+            if out_[0] == 'ret':
+                if ops:
+                    v_ = ops[0][3]; al_ = s.dget(v_, S('args'))
+                    obl.append(Obl('C03/%s/operation_entry_holds_the_returned_value' % U, ('C03', 'C01'), s,
+                                   z3.And(z3.BoolVal(len(ops) == 1), Val.is_ref(v_), Val.is_ref(al_), s.g['seq'][Val.addr(al_)] == z3.Unit(out_[1])), oc))
+                elif still:
+                    obl.append(Obl('C03/%s/operation_entry_recorded_for_a_returning_operation' % U, ('C03', 'C01'), s, z3.Or(disc_, s.rd(selfv, '_active_recording') == NONE, z3.BoolVal(False)), oc))
+            else:
+                tre_ = sub(TYP(Val.addr(out_[1])), K('TapeRecorderException'))
+                ordinary_ = z3.And(is_exc(out_[1]), z3.Not(tre_))
+                obl.append(Obl('C03/%s/no_operation_entry_for_an_interrupt_or_framework_exception' % U, ('C03', 'C18'), s, z3.Implies(z3.Not(ordinary_), z3.BoolVal(len(ops) == 0)), oc))
+                if ops:
+                    v_ = ops[0][3]; al_ = s.dget(v_, S('args')); e0_ = s.g['seq'][Val.addr(al_)][0]
+                    obl.append(Obl('C03/%s/operation_entry_holds_the_exception_or_its_serialisable_form' % U, ('C03', 'C01'), s,
+                                   z3.And(z3.BoolVal(len(ops) == 1), z3.Length(s.g['seq'][Val.addr(al_)]) == 1,
+                                          z3.Or(e0_ == out_[1], z3.And(Val.is_ref(e0_), s.dget(e0_, S('error_type')) == Val.cls(TYP(Val.addr(out_[1])))))), oc))
         saves = [ev for ev in s.events if ev[0] == 'save']
         saved = z3.BoolVal(bool(saves))
         disc = z3.Or(*[z3.And(ev[1], ev[2] == r) for ev in s.events if ev[0] == 'abort?']) if any(ev[0] == 'abort?' for ev in s.events) else z3.BoolVal(False)
@@ -645,8 +668,8 @@ def w_op_playback(props=None):
             obl.append(Obl('C03/%s/one_operation_entry' % U, 'C03', s, z3.BoolVal(len(pbo) == 1), oc))
             if len(pbo) == 1:
                 v = s.rd(pbo[0][1], 'value'); al = s.dget(v, S('args'))
-                obl.append(Obl('C03/%s/operation_entry_key' % U, 'C03', s, s.rd(pbo[0][1], 'key') == opk, oc))
-                obl.append(Obl('C03/%s/operation_entry_holds_result' % U, 'C03', s,
+                obl.append(Obl('C03/%s/operation_entry_key' % U, ('C03', 'C01'), s, s.rd(pbo[0][1], 'key') == opk, oc))
+                obl.append(Obl('C03/%s/operation_entry_holds_result' % U, ('C03', 'C01'), s,
                                z3.And(Val.is_ref(v), Val.is_ref(al), s.g['seq'][Val.addr(al)] == z3.Unit(out[1])), oc))
             obl.append(Obl('C01/%s/returns_body_result' % U, 'C01', s, oc[1] == out[1] if oc[0] == 'return' else z3.BoolVal(False), oc))
         else:
@@ -655,7 +678,7 @@ def w_op_playback(props=None):
             obl.append(Obl('C03/%s/no_entry_for_framework_or_interrupt' % U, 'C03', s, z3.Implies(z3.Not(ordinary), z3.BoolVal(len(pbo) == 0)), oc))
             if len(pbo) == 1:
                 v = s.rd(pbo[0][1], 'value'); al = s.dget(v, S('args')); e0 = s.g['seq'][Val.addr(al)][0]
-                obl.append(Obl('C03/%s/operation_entry_key' % U, 'C03', s, s.rd(pbo[0][1], 'key') == opk, oc))
+                obl.append(Obl('C03/%s/operation_entry_key' % U, ('C03', 'C01'), s, s.rd(pbo[0][1], 'key') == opk, oc))
                 obl.append(Obl('C03/%s/operation_entry_holds_exception_or_its_serialisable_form' % U, 'C03', s,
                                z3.And(z3.Length(s.g['seq'][Val.addr(al)]) == 1,
                                       z3.Or(e0 == out[1], z3.And(Val.is_ref(e0), s.dget(e0, S('error_type')) == Val.cls(TYP(Val.addr(out[1])))))), oc))
